@@ -2,6 +2,7 @@ package types
 
 import (
 	"fmt"
+	"math"
 	"time"
 )
 
@@ -110,6 +111,10 @@ func (p Params) Validate() error {
 	}
 	if err := validateUint64("inactive penalty duration", false)(p.InactivePenaltyDuration); err != nil {
 		return err
+	}
+	// the value is used as a time.Duration (int64 nanoseconds): a larger one would turn into a negative penalty
+	if p.InactivePenaltyDuration > math.MaxInt64 {
+		return fmt.Errorf("inactive penalty duration must not exceed %d: %d", int64(math.MaxInt64), p.InactivePenaltyDuration)
 	}
 	if err := validateBool()(p.IBCRequestEnabled); err != nil {
 		return err
